@@ -102,7 +102,7 @@ std::string show(u128 v)
 enum Msg { M_REQUEST, M_REPLY_200, M_REPLY_204, M_REPLY_100, M_END };
 const char *msgName(int m) { static const char *n[] = {"request", "reply-200", "reply-204", "reply-100"}; return n[m]; }
 
-uint64_t nParse = 0, nTaken = 0, nBadFraming = 0, nRejected = 0, nConflictFlag = 0, nIgnored = 0, nDupAccepted = 0, nDupRefused = 0, nSanitised = 0;
+uint64_t nCommaOnlyIgnored = 0, nParse = 0, nTaken = 0, nBadFraming = 0, nRejected = 0, nConflictFlag = 0, nIgnored = 0, nDupAccepted = 0, nDupRefused = 0, nSanitised = 0;
 
 // Returns an outcome label for the (strict-mode request) classification.
 std::string checkOne(const std::vector<std::string> &fieldValues, const int layout, const int msg, const int relaxed, const bool withTe)
@@ -200,6 +200,17 @@ std::string checkOne(const std::vector<std::string> &fieldValues, const int layo
         if (!taken) ++nBadFraming;
         return taken ? "empty-elements:taken" : "empty-elements:bad-framing";
     }
+    // (3") nothing but empty list elements ("Content-Length: ,"): a Content-Length field is present and spells no length at all
+    if (ref.items == 0) {
+        if (!rejected && !flagged) {
+            if (++nCommaOnlyIgnored <= 3)
+                V::failKey("content-length-with-only-empty-list-elements:ignored-instead-of-bad-framing",
+                           cfg + ": " + seen + " although the Content-Length field value consists of commas/whitespace only: it spells no valid decimal, so the message must be treated as having bad framing");
+            return "comma-only:ignored";
+        }
+        ++nBadFraming;
+        return "comma-only:bad-framing";
+    }
     // (4) an invalid value or differing values: bad framing
     if (!rejected && !flagged) { V::fail(cfg + ": " + seen + " although " + (ref.invalid ? "a Content-Length value is not a valid non-negative decimal" : "the Content-Length values differ") + ": must be treated as bad framing"); return "violation"; }
     ++nBadFraming;
@@ -257,12 +268,17 @@ void body(V::Ctx &ctx)
     if (!ctx.quick()) items.insert(items.end(), ItemsMore.begin(), ItemsMore.end());
 
     const std::vector<std::string> one = fieldValuesUpTo(items, 1), two = fieldValuesUpTo(items, 2), three = fieldValuesUpTo(items, 3);
-    // one field
+    // one field: a single value or a list of up to 3
     for (const auto &a : three) runCase("1:" + V::esc(a), {a});
-    // two fields
-    const std::vector<std::string> &left = ctx.quick() ? two : three;
-    for (const auto &a : left)
+    // two fields, each a single value or a list of 2
+    for (const auto &a : two)
         for (const auto &b : two) runCase("2:" + V::esc(a) + "|" + V::esc(b), {a, b});
+    // thorough: a list of 3 (base grid) followed by a field of up to 2
+    if (!ctx.quick()) {
+        const std::vector<std::string> twoBase = fieldValuesUpTo(ItemsQuick, 2), threeBase = fieldValuesUpTo(ItemsQuick, 3);
+        for (size_t i = twoBase.size(); i < threeBase.size(); ++i)
+            for (const auto &b : twoBase) runCase("2:" + V::esc(threeBase[i]) + "|" + V::esc(b), {threeBase[i], b});
+    }
     // three fields of single values
     for (const auto &a : one)
         for (const auto &b : one)
@@ -277,6 +293,7 @@ void body(V::Ctx &ctx)
     V::count("duplicates_accepted_relaxed", nDupAccepted);
     V::count("duplicates_refused_strict", nDupRefused);
     V::count("sanitised_to_one_entry", nSanitised);
+    V::count("comma_only_ignored", nCommaOnlyIgnored);
 }
 
 } // namespace
